@@ -23,7 +23,7 @@ ASSUMPTIONS = ["(a) restart limit is a symbolic integer in [0, 5] or None; at ev
                "the solver's role here is the case split over these finite choices plus the arithmetic over the symbolic restart limit"]
 BOUNDS = {"quick": "(a) <= 3 runs per start, 2 starts of the same actor, 1 or 2 await points in the run logic; (b) 2 tasks; run() with 2 actors",
           "thorough": "(a) <= 4 runs, 2 await points; (b) 3 tasks"}
-OUTSIDE = "exceptions raised by the run logic while it is being cancelled; thread-safety; actors started from other actors"
+OUTSIDE = "thread-safety; actors started from other actors; cancel_and_await() swallowing the caller's own cancellation"
 BUDGET = {"quick": 300, "thorough": 900}
 LOG = []
 
@@ -42,6 +42,10 @@ class FakeAsyncio:
     async def sleep(self, delay):
         LOG.append(("delay", delay))
         await Yield()
+
+    @staticmethod
+    def current_task():
+        return None   # the hand-driven coroutine of (a) runs outside any task
 
 
 class MyBase(BaseException):
@@ -360,6 +364,62 @@ def make_actor_restart(reach=False):
     return fn
 
 
+def make_cancel_raises(reach=False):
+    """The run logic answers its cancellation by raising an Exception (a failing clean-up).  stop() must still return, surface that error, and
+    the run logic must not be re-invoked: 'never re-invoked after a cancellation'."""
+    def fn(ex):
+        limit = [None, 0, 2][ex.choice("restart_limit", 3)]
+        cleanup = [0.0, 1.0][ex.choice("cleanup_s", 2)]
+        via = ["stop", "cancel_then_wait"][ex.choice("how", 2)]
+        log = []
+
+        class A(Actor):
+            _restart_limit = limit
+
+            async def _run(self):
+                log.append("enter")
+                try:
+                    await asyncio.sleep(3600.0)
+                except asyncio.CancelledError:
+                    if cleanup:
+                        await asyncio.sleep(cleanup)
+                    raise RuntimeError("clean-up failed")   # noqa: B904
+
+        async def scenario():
+            a = A(name="a")
+            a.start()
+            await asyncio.sleep(1.0)
+            raised = None
+            try:
+                if via == "stop":
+                    await asyncio.wait_for(a.stop(), 100.0)
+                else:
+                    a.cancel()
+                    await asyncio.wait_for(a.wait(), 100.0)
+            except asyncio.TimeoutError:
+                raised = "timeout"
+            except BaseExceptionGroup as g:
+                raised = g
+            running = a.is_running
+            for t in list(a.tasks):
+                t.cancel()
+            await asyncio.gather(*a.tasks, return_exceptions=True)
+            return raised, running
+        raised, running = fx.run_loop(scenario())
+        if reach:
+            ex.check(False, "reach")
+            return
+        ex.check(raised != "timeout", f"{via}: did not return (the actor was restarted after its cancellation: {log})")
+        ex.check(log == ["enter"], f"run logic re-invoked after a cancellation: {log}")
+        ex.check(not running, "actor still running after it was stopped")
+        if raised not in (None, "timeout"):
+            errs = [e for e in raised.exceptions if not isinstance(e, asyncio.CancelledError)]
+            ex.check(len(errs) == 1 and isinstance(errs[0], RuntimeError), f"errors surfaced: {errs}")
+        else:
+            ex.check(raised is not None, "the error raised by the clean-up was not surfaced")
+    return fn
+
+
 def instances(tier):
     I = Instance
     out = [
@@ -368,6 +428,8 @@ def instances(tier):
         I("runloop-K2-await2", "make_runloop", (2, 2), "<= 2 runs per start, 2 await points, 2 starts", budget_s=200, validate_every=50),
         I("service-2", "make_service", (2, True), "2 tasks x 8 behaviours (incl. a BaseException that is neither Exception nor CancelledError, and a task that stops its own service), 5 operations (incl. stop() while another wait() is pending), 2 instants", budget_s=200, validate_every=20),
         I("run-2", "make_run", (), "run() with 2 actors", budget_s=100, validate_every=10),
+        I("actor-cancel-raises", "make_cancel_raises", (), "the run logic raises an Exception while being cancelled (3 restart limits, with/without clean-up delay, stop() or cancel()+wait())",
+          budget_s=100, validate_every=5),
         I("actor-start-while-stopping", "make_actor_restart", (), "start() while the previous run is being cancelled / cleaning up", budget_s=100, validate_every=5),
     ]
     if tier != "quick":
